@@ -165,7 +165,8 @@ def _loops_with_two_setups_then_setup(body):
 def _loop_writes_field_a_later_setup_omits(body, acc, fidx):
     """True iff some scf.for contains (anywhere in its body) a setup of accelerator `acc` that writes field number `fidx`, and a
     setup of `acc` that does NOT write that field (a setup of only some of the fields) can execute after the loop: the same
-    exit-state dependence without any deduplication - the program itself leaves the field alone behind the loop."""
+    exit-state dependence without any deduplication - the program itself leaves the field alone behind the loop (a following
+    loop that launches the state it is entered with, before any setup, leaves all fields alone)."""
 
     def writes(stmts):
         for s in stmts:
@@ -178,6 +179,9 @@ def _loop_writes_field_a_later_setup_omits(body, acc, fidx):
     def omits(stmts):
         for s in stmts:
             if s["k"] == "sl" and s["acc"] == acc and fidx in s.get("omit", ()):
+                return True
+            # a loop that launches the state it is entered with before setting anything up leaves every field alone
+            if s["k"] == "for" and s.get("head_launch") and s.get("carry_state") == acc:
                 return True
             if any(omits(s.get(key, [])) for key in ("body", "then", "else")):
                 return True
